@@ -121,7 +121,7 @@ def loopArm (s : RS) (arm : String) (jtok cls : String) (p o w r : Int) (nil : B
           let s := s.div "loop.dispatch-not-front" s!"impl dispatched {j}, model's ready front is {j'}"
           -- resynchronise: remove j from ready if present
           let l := s.loop
-          let l := { Loop.setJob l j { Loop.job l j with dispatched := true } with
+          let l := { Loop.setJob l j (Loop.job l j).setDispatched with
                       ready := l.ready.filter (· != j), ongoing := l.ongoing + 1 }
           { s with loop := l }
       | none =>
